@@ -130,6 +130,7 @@ func sendOrder(e *Env) {
 		kind    int // 0 user task, 1 foreground handler, 2 background handler
 		long    bool
 		issued  []string
+		payload []string
 		done    bool
 		started bool
 	}
@@ -138,6 +139,13 @@ func sendOrder(e *Env) {
 	for i := 0; i < nSenders; i++ {
 		sd := &sender{id: i, kind: g.W(3, 2, 2), long: g.Pct(15)}
 		sd.n = []int{1, 2, 5, 20, 40, 70, 200}[g.Intn(7)]
+		// "byte for byte": arbitrary bytes and arbitrary runes other than CR/LF
+		if g.Pct(40) {
+			for j := g.Range(1, 6); j > 0; j-- {
+				sd.payload = append(sd.payload, wirePayload(g))
+			}
+			e.S.Count("probe.binary-or-unicode-payload")
+		}
 		senders = append(senders, sd)
 		total += sd.n
 	}
@@ -150,6 +158,9 @@ func sendOrder(e *Env) {
 				line = fmt.Sprintf("PRIVMSG #c :s%d.%d %s", sd.id, k, strings.Repeat("x", 300+k))
 			} else {
 				line = fmt.Sprintf("PRIVMSG #c :s%d.%d", sd.id, k)
+			}
+			if sd.payload != nil {
+				line += " " + sd.payload[k%len(sd.payload)]
 			}
 			sd.issued = append(sd.issued, line)
 			s.c.Raw(line)
@@ -265,6 +276,44 @@ func sendOrder(e *Env) {
 		e.Violation("harness", "connection went down during a run without faults")
 	}
 	s.c.Close()
+}
+
+// wirePayload is text a caller may legitimately hand to Raw: any bytes but CR
+// and LF.  Half of the time it is valid UTF-8 whose code points have "special"
+// low bytes (a rune-to-byte truncation would mistake them for CR, LF, NUL,
+// space, colon), otherwise raw bytes including NUL, 0x01, 0x80-0xff.
+func wirePayload(g G) string {
+	n := g.Range(1, 24)
+	var b []byte
+	if g.Bool() {
+		low := []rune{0x0a, 0x0d, 0x00, 0x20, 0x3a, 0x85, 0x28, 0x29}
+		for i := 0; i < n; i++ {
+			var r rune
+			switch g.Intn(4) {
+			case 0:
+				r = rune(g.Range(0x20, 0x7e))
+			case 1:
+				r = rune(g.Range(1, 0xd7))<<8 | low[g.Intn(len(low))]
+			case 2:
+				r = rune(g.Range(0x100, 0x10ff))<<8 | low[g.Intn(len(low))]
+			default:
+				r = rune(g.Range(0xa0, 0x2fff))
+			}
+			if r >= 0xd800 && r < 0xe000 {
+				r = 0x4e0a
+			}
+			b = append(b, string(r)...)
+		}
+	} else {
+		for i := 0; i < n; i++ {
+			c := byte(g.Intn(256))
+			if c == '\r' || c == '\n' {
+				c = 0
+			}
+			b = append(b, c)
+		}
+	}
+	return string(b)
 }
 
 func clip(s string) string {
